@@ -121,7 +121,7 @@ def malformed_for(s):
     if d["c"] == "ref" and d["p"] == "enum":
         return ["red", "", "RED BLUE", "GRÜN"]
     return {"uuid": ["not-a-uuid", UUID + "0", ""], "rid": ["ri.Bad.b.c.d", "ri.a.b.c", "x"], "bearertoken": ["a b", "", "=="],
-            "datetime": ["2017-13-45T00:00:00Z", "yesterday", "2017-01-02"], "binary": ["!!!!", "AQI", "A"]}[d["p"]]
+            "datetime": ["2017-13-45T00:00:00Z", "yesterday", "2017-01-02"], "binary": ["!!!!", "AQI", "A", "A" * 63 + "\u00e9" + "AAAA", "\u00e9" * 70, "AQID" * 20 + "\u2603!"]}[d["p"]]
 
 
 def range_for(s):
